@@ -1,6 +1,6 @@
 PROPERTY = "C14"
 LEVEL = "proof"
-LEAN_MODULES = ["CifModel.Props.C14"]
+LEAN_MODULES = ["CifModel.Props.C14", "CifModel.Props.ReviewC14"]
 REQUIRED = ["CifModel.C14_all_continue", "CifModel.C14_refines_spec", "CifModel.C14_skip_current",
             "CifModel.C14_skip_siblings", "CifModel.C14_end", "CifModel.C14_error_propagates",
             "CifModel.C14_returns_ok_on_directives", "CifModel.C14_empty_loop", "CifModel.C14_cex_finished_pinned"]
